@@ -10,5 +10,5 @@ CONSTANTS
  OpKinds <- MutOnly
  UseMutex = FALSE
 SPECIFICATION Spec
-INVARIANTS NoViol Glue Quiescent LayoutGlue WellFormed CacheCoherent
+INVARIANTS NoViol Glue Quiescent LayoutGlue WellFormed CacheCoherent GetStable HeadStable
 CHECK_DEADLOCK FALSE
